@@ -27,7 +27,10 @@ static void send_hello_cb(void *network_interface) {
     vp_now_ms += (uint64_t)vp_opt_hello_cost;      /* transmitting the Hello takes time */
 }
 
+int vh_flow_noensure = 0;      /* OPT noensure=1: the daemon lives with what its start-up got (a constructor that failed left NULL) */
+
 void vh_flow_ensure(vp_iface *f) {
+    if (vh_flow_noensure) return;
     if (!f->mapping) f->mapping = init_automata_mapping();
     if (!f->session) f->session = init_automata_session();
     if (!f->enumeration) f->enumeration = init_automata_enumeration();
